@@ -15,12 +15,16 @@ namespace Anytype
 
 open Generated
 
-/-- closes one case: syntactic agreement, or exhaustive splitting -/
+/-- closes one case: syntactic agreement, or exhaustive splitting (`split` cannot use a hypothesis `a ≥ b`
+to decide `if a ≥ b`: the last alternative writes `≥` / `>` as `≤` / `<` first) -/
 local macro "gen_case" : tactic =>
   `(tactic| first
     | rfl
     | ((try simp only [Bool.or_eq_true, Bool.and_eq_true, decide_eq_true_eq, Bool.not_eq_true', beq_iff_eq,
           bne_iff_ne]) <;>
+        (repeat' split) <;> first | rfl | (simp_all; done) | (simp_all [L.count]; done) | (simp_all [L.count]; omega))
+    | ((try simp only [Bool.or_eq_true, Bool.and_eq_true, decide_eq_true_eq, Bool.not_eq_true', beq_iff_eq,
+          bne_iff_ne, ge_iff_le, gt_iff_lt]) <;>
         (repeat' split) <;> first | rfl | (simp_all; done) | (simp_all [L.count]; done) | (simp_all [L.count]; omega)))
 
 theorem countGen_eq (h : Heap) (a : Nat) : countGen h a = L.count h a := rfl
@@ -52,7 +56,7 @@ theorem typeOfGen_eq (h : Heap) (a : Nat) (index : Int) : typeOfGen h a index = 
   simp only [typeOfGen, L.typeOf, countGen_eq]
   cases (h.items a)[index.toNat]? with
   | none => gen_case
-  | some v => cases v <;> first | rfl | (simp [Val.kind]; done) | ((repeat' split) <;> simp_all [Val.kind])
+  | some v => cases v <;> simp only [Val.kind] <;> gen_case
 
 /-! ### mutators -/
 
@@ -144,15 +148,6 @@ theorem floatSliceGen_eq (h : Heap) (a : Nat) : floatSliceGen h a = L.sliceK h a
 
 /-! ### searching -/
 
-theorem containsLoopGen_eq (h : Heap) (elem : Val) (xs : List Val) :
-    containsLoopGen h elem xs = xs.any (fun item => L.goEq (h.getVal item) elem) := by
-  induction xs with
-  | nil => simp [containsLoopGen]
-  | cons x xs ih => simp only [containsLoopGen, List.any_cons, ih] <;> gen_case
-
-theorem containsGen_eq (h : Heap) (a : Nat) (elem : Val) : containsGen h a elem = L.contains h a elem := by
-  simp only [containsGen, L.contains, containsLoopGen_eq]
-
 theorem indexOfLoopGen_eq (h : Heap) (elem : Val) (xs : List Val) (i : Int) :
     indexOfLoopGen h elem xs i = L.indexOfLoop h elem xs i := by
   induction xs generalizing i with
@@ -161,6 +156,39 @@ theorem indexOfLoopGen_eq (h : Heap) (elem : Val) (xs : List Val) (i : Int) :
 
 theorem indexOfGen_eq (h : Heap) (a : Nat) (elem : Val) : indexOfGen h a elem = L.indexOf h a elem := by
   simp only [indexOfGen, L.indexOf, indexOfLoopGen_eq]
+
+/-- what `IndexOf` says about membership (a fact about the model): a hit gives an index from the start
+index on, no hit gives `-1` -/
+theorem indexOfLoop_spec (h : Heap) (elem : Val) (xs : List Val) (i : Int) :
+    (xs.any (fun item => L.goEq (h.getVal item) elem) = true ∧ i ≤ L.indexOfLoop h elem xs i) ∨
+    (xs.any (fun item => L.goEq (h.getVal item) elem) = false ∧ L.indexOfLoop h elem xs i = -1) := by
+  induction xs generalizing i with
+  | nil => right; simp [L.indexOfLoop]
+  | cons x xs ih =>
+    simp only [List.any_cons, L.indexOfLoop]
+    cases hx : L.goEq (h.getVal x) elem with
+    | true => left; simp
+    | false =>
+      rcases ih (i + 1) with ⟨hc, hi⟩ | ⟨hc, hi⟩
+      · left; simp [hc]; omega
+      · right; simp [hc, hi]
+
+theorem indexOf_spec (h : Heap) (a : Nat) (elem : Val) :
+    (L.contains h a elem = true ∧ 0 ≤ L.indexOf h a elem) ∨ (L.contains h a elem = false ∧ L.indexOf h a elem = -1) :=
+  indexOfLoop_spec h elem (h.items a) 0
+
+/-- `Contains` either has a search loop of its own (`containsLoopGen`, which then exists) or is a test of
+the result of `IndexOf` (`!= -1`, `>= 0`, …), decided with `indexOf_spec` -/
+theorem containsGen_eq (h : Heap) (a : Nat) (elem : Val) : containsGen h a elem = L.contains h a elem := by
+  first
+  | (have hl : ∀ xs, containsLoopGen h elem xs = xs.any (fun item => L.goEq (h.getVal item) elem) := by
+      intro xs
+      induction xs with
+      | nil => simp [containsLoopGen]
+      | cons x xs ih => simp only [containsLoopGen, List.any_cons, ih] <;> gen_case
+     simp only [containsGen, L.contains, hl]; done)
+  | (simp only [containsGen, indexOfGen_eq]
+     rcases indexOf_spec h a elem with ⟨hc, hi⟩ | ⟨hc, hi⟩ <;> rw [hc] <;> simp <;> omega)
 
 /-! ### All* -/
 
